@@ -2,7 +2,7 @@
 import ps, oracle
 
 LEVEL = "proof"
-THEOREMS = ["C06_store_primes_spec", "C06_store_primes_no_truncation", "C06_store_n_primes_spec", "C06_store_primes_model_kernel"]
+THEOREMS = ["C06_store_primes_spec", "C06_store_primes_no_truncation", "C06_store_n_primes_spec", "C06_store_primes_model_kernel", "C06_store_primes_final"]
 ASSUMPTIONS = [
     "blocks_of: the iterator delivers non-empty blocks whose concatenation is the ascending list of primes >= start below 2^64 (C01)",
     "largest_prime_hyp: 18446744073709551557 is the largest prime below 2^64 (the code's literal; literature fact, not re-derived in Coq)",
